@@ -33,7 +33,7 @@ func genC07(t *rapid.T, _ *evid.Rec) caseC07 {
 	case 0:
 		text = gen.Soup(t, "soup")
 	default:
-		d := gen.Doc(t, gen.Opts{AllowMany: true, Controls: true, InvalidUTF8: true})
+		d := gen.Doc(t, gen.Opts{AllowMany: true, Controls: true, InvalidUTF8: true, KeepTrailingCR: true})
 		l := gen.Layout(t, len(d.Records))
 		var lines []model.LineInfo
 		text, lines = model.Render(d, l)
